@@ -1101,3 +1101,117 @@ MODEL = Unit(['C03', 'C13', 'C01', 'C02', 'C20'], SM + 'model', _mc_params, post
              doc='the forward-model evaluation: profiles initialised first, the native grid clipped to the requested grid exactly when '
                  'asked, the star and every contribution (in list order) prepared on that one grid, ONE path integral over the whole '
                  'list on that grid, and (grid, depth, tau, None) of that integral returned (0..3 contributions)')
+
+
+# ------------------------------------------------------------------ HydrogenIon.prepare_each: H- opacity = (free-free + bound-free coefficient) x P x [H] x [e-]
+HM = 'taurex.contributions.hm:HydrogenIon.'
+
+
+def _hm_params(c):
+    fx = c.fixed if c.mode != 'conc' else c.values
+    n, W = c.int('n'), c.int('W')
+    names = [g for g, present in (('H', fx['H']), ('e-', fx['e'])) if present] + ['H2']
+    if c.mode == 'conc':
+        c.concrete_funcs = {'KFF': lambda T, w: 1e-26 * (1 + w) * (T / 1000.0), 'KBF': lambda T, w: 3e-27 * (2 + w) / (T / 1000.0)}
+    return dict(self=ObjSpec('HydrogenIon', sigma_xsec=None, _nlayers=None, _P_dyne=None, _temperature_profile=None, _hydrogen_mixratio=None,
+                             _electron_mixratio=None, _f_res=None),
+                model=ObjSpec('SimpleForwardModel', nLayers=n, pressureProfile=c.array('P', (n,)), temperatureProfile=c.array('T', (n,)),
+                              chemistry=_chem(c, n, names, activeGases=[], inactiveGases=list(names))),
+                wngrid=c.array('wngrid', (W,)))
+
+
+def _hm_k(which):
+    def h(ex, st, args, kwargs, node):
+        """assumed: the absorption coefficient of H- at the requested wavelengths for ONE temperature (a function of wavelength index and
+        temperature only -- the polynomial fits themselves are not under contract)"""
+        c = ex.c
+        lam, T = args[-2], args[-1]
+        W = st.get(lam).shape[0] if isinstance(lam, Ref) else None
+        f = c.func(which, REAL, INT, REAL)
+        return st.alloc(c, Arr((W,), lambda ix, f=f, T=T: f(to_real(T), to_int(ix[0])), 'real'))
+    return h
+
+
+def _hm_raises(c, v):
+    fx = c.fixed if c.mode != 'conc' else c.values
+    return {'InvalidModelException': not (fx['H'] and fx['e'])}
+
+
+def _hm_yields(c, v0, v, k, val):
+    n, W = v0.model.nLayers, c.Len(v0.wngrid)
+    name, sig = val
+    KFF, KBF = c.func('KFF', REAL, INT, REAL), c.func('KBF', REAL, INT, REAL)
+    P, T = v0.model.pressureProfile, v0.model.temperatureProfile
+    H, E = _mix(v0, 'H'), _mix(v0, 'e-')
+    return {'named': name == 'HydrogenIon', 'shape': c.And(c.Shape(sig)[0] == n, c.Shape(sig)[1] == W),
+            'coefficient_times_pressure_times_both_abundances': c.Forall2((0, n), (0, W), lambda l, w: c.Eq(
+                sig[l, w], ((KFF(T[l], w) + KBF(T[l], w)) * (P[l] * 1e1) * H[l] * E[l]) * 1e-4)),
+            'current_sigma_is_component': _same_arr(c, v.self.sigma_xsec, sig, n, W)}
+
+
+def _hm_post(c, v0, v1, r):
+    return {'one_component': len(r) == 1}
+
+
+def _hm_obj(c, p):
+    from taurex.contributions.hm import HydrogenIon
+    o = HydrogenIon.__new__(HydrogenIon)
+    _quiet(o)
+    o.sigma_xsec = None
+    return o
+
+
+def _hm_call(c, o, p):
+    import numpy as np
+    m = p['model']
+    ch = m['chemistry']
+    KFF, KBF = c.concrete_funcs['KFF'], c.concrete_funcs['KBF']
+    W = len(p['wngrid'])
+    o.k_ff = lambda lamb, T: np.array([KFF(float(T), w) for w in range(W)])
+    o.k_bf = lambda lamb, T: np.array([KBF(float(T), w) for w in range(W)])
+    o.f = lambda lamb: None
+    o.precalc_k_ff = lambda lamb: None
+    model = _NS(nLayers=m['nLayers'], pressureProfile=np.array(m['pressureProfile'], dtype=float), temperatureProfile=np.array(m['temperatureProfile'], dtype=float),
+                chemistry=_FakeChem(ch, ch['activeGases'], ch['inactiveGases']))
+    vals, states = [], []
+    for nm, sig in o.prepare_each(model, np.array(p['wngrid'], dtype=float)):
+        vals.append((nm, np.array(sig, dtype=float)))
+        states.append(_state(p, o, ('sigma_xsec',)))
+    return GenTrace(vals, states), p
+
+
+_HM_CASES = [dict(H=a, e=b) for a in (True, False) for b in (True, False)]
+
+
+def _hm_gen(rng):
+    cs = dict(rng.choice(_HM_CASES))
+    n, W = rng.randint(1, 4), rng.randint(1, 3)
+    d = dict(cs, n=n, W=W, wngrid=[500.0 * (i + 1) for i in range(W)], P=[10 ** rng.uniform(-2, 6) for _ in range(n)], T=[rng.uniform(500, 4000) for _ in range(n)])
+    d['mix_H2'] = [0.8] * n
+    d['mix_H'] = [rng.choice([0.0, rng.uniform(0, 1e-2)]) for _ in range(n)]
+    d['mix_e-'] = [rng.choice([0.0, rng.uniform(0, 1e-4)]) for _ in range(n)]
+    return d
+
+
+HIP = Unit('C03', HM + 'prepare_each', _hm_params, pre=lambda c, v: {'sizes': c.And(v.model.nLayers >= 1, c.Len(v.wngrid) >= 0)}, raises=_hm_raises,
+           post=_hm_post, yields=_hm_yields, cases=_HM_CASES, bounds=[dict(n=2, W=1)],
+           abstract={'Chemistry.get_gas_mix_profile': _get_mix, 'call:k_ff': _hm_k('KFF'), 'call:k_bf': _hm_k('KBF'),
+                     'call:f': lambda ex, st, args, kwargs, node: None, 'call:precalc_k_ff': lambda ex, st, args, kwargs, node: None},
+           native_obj=_hm_obj, native_call=_hm_call, gen=_hm_gen, invariants={0: lambda c, v, v0, i: _hm_inv(c, v0, v, i)},
+           frame_attrs=[('self', a) for a in ('sigma_xsec', '_nlayers', '_P_dyne', '_temperature_profile', '_hydrogen_mixratio', '_electron_mixratio', '_f_res')],
+           short='HydrogenIon.prepare_each',
+           doc='H- continuum: without hydrogen or without free electrons in the chemistry the model is invalid; otherwise ONE component whose '
+               'value in layer l is (free-free + bound-free coefficient at T_l) x pressure [dyn/cm2] x [H]_l x [e-]_l, in m2 -- linear in either '
+               'abundance, zero where one of them is zero -- and the contribution\'s own sigma_xsec is that component (the polynomial fits '
+               'k_ff / k_bf enter as abstract functions of temperature and wavelength index)')
+
+
+def _hm_inv(c, v0, v, i):
+    n, W = v0.model.nLayers, c.Len(v0.wngrid)
+    KFF, KBF = c.func('KFF', REAL, INT, REAL), c.func('KBF', REAL, INT, REAL)
+    P, T = v0.model.pressureProfile, v0.model.temperatureProfile
+    H, E = _mix(v0, 'H'), _mix(v0, 'e-')
+    S = v.self.sigma_xsec
+    return {'range': c.And(0 <= i, i <= n), 'shape': c.And(c.Shape(S)[0] == n, c.Shape(S)[1] == W),
+            'rows_done': c.Forall2((0, i), (0, W), lambda l, w: c.Eq(S[l, w], (KFF(T[l], w) + KBF(T[l], w)) * (P[l] * 1e1) * H[l] * E[l])),
+            'rows_to_do_are_zero': c.Forall2((i, n), (0, W), lambda l, w: c.Eq(S[l, w], 0))}
